@@ -87,6 +87,7 @@ trAlloc(Syme syme, TForm tf)
 	tfFollow(tf);
 	tr = (TReject) stoAlloc((unsigned) OB_Other, sizeof(*tr));
 
+	tr->why		= 0;	/* not classified: analyseRejectionCause skips meanings that are not maps */
 	tr->syme	= syme;
 	tr->tf		= tf;
 	tr->parN	= 0;
